@@ -143,10 +143,13 @@ fn build_file<'a>(
         // Every file is judged on its own assertions: start it with a fresh collector.
         env.borrow_mut().assert_results = build::AssertCollector::new();
     }
-    builder.build(file_path_buf)?;
+    let result = builder.build(file_path_buf);
     if validate {
+        // The assertions that were evaluated before a build error belong
+        // in the log too.
         println!("{}", builder.assert_summary());
     }
+    result?;
     Ok(builder)
 }
 
